@@ -123,6 +123,10 @@ RULES: dict[str, str] = {
                   "numeric order",
     "ORD-STRING": "TR#ce operator table on two strings (same type, hence not 'incompatible' in the sense of S): "
                   "lexicographic order (all usual string orders agree on the lattice's strings)",
+    "ORD-OR-EQUAL": "TR#ce operator table: '<=' is 'Less than or equal to', '>=' is 'Greater than or equal to': two "
+                    "operands of the same kind that are equal by EQ-SAME (nil/nil, true/true, false/false, equal "
+                    "arrays, hashes, ranges; equal numbers and strings fall under ORD-NUMBER / ORD-STRING) satisfy "
+                    "`<=` and `>=` -- true, no error",
     "ORD-INCOMPATIBLE": "S: 'ordering comparisons between incompatible types raise a Liquid type error' "
                         "(operands of different kinds among number, string, nil, array, hash, range)",
     "CONTAINS-SUBSTRING": "S: 'contains' with two strings, literal meaning: the right string occurs in the left one",
@@ -244,6 +248,8 @@ def ref_eq(l: Any, r: Any) -> Verdict:
 
 def ref_order(op: str, l: Any, r: Any) -> Verdict:
     kl, kr = kind(l), kind(r)
+    if op in ("<=", ">=") and kl == kr and kl in ("bool", "nil", "array", "hash", "range") and _deep_eq(l, r) is True:
+        return True, "ORD-OR-EQUAL"
     for k in (kl, kr):
         if k in ("empty", "blank"):
             return None, "order:empty/blank-operand"
@@ -495,6 +501,9 @@ def self_test() -> None:
     assert ref_contains([True], 1)[0] is None and ref_contains([1], 1)[0] is True
     assert ref_order("<", 1, "a") == ("LiquidTypeError", "ORD-INCOMPATIBLE")
     assert ref_order("<", True, 1)[0] is None
+    assert ref_order("<=", None, None) == (True, "ORD-OR-EQUAL") and ref_order(">=", [1], [1])[0] is True
+    assert ref_order("<", None, None)[0] is None and ref_order("<=", True, False)[0] is None
+    assert ref_order("<=", [1], [True])[0] is None and ref_order("<=", [1], ["a"])[0] is None
 
 
 self_test()
